@@ -77,6 +77,6 @@ package hash
 //@ ensures[length] isnil(result1) ==> len(result0) == lenInBytes
 //@ ensures[accepted] isnil(result1) ==> 0 <= lenInBytes && lenInBytes <= 8160 && len(dst) <= 255
 //@ ensures[refused] !isnil(result1) ==> lenInBytes < 0 || lenInBytes > 8160 || len(dst) > 255
-//@ ensures[digests] isnil(result1) ==> blk == max(ell, 1) + 1
+//@ ensures[digests] isnil(result1) ==> blk == max((lenInBytes + 31) / 32, 1) + 1
 //@ modifies nothing
 //@ end
